@@ -424,6 +424,65 @@ def discrete_worker(name):
                 bad=bad[:20])
 
 
+def large_parameter_pmf():
+    """pmf side for large parameters (the sampler needs too many uniforms per
+    draw for a lattice): evaluable, >= 0, equal to the closed form, mass 1
+    over a window of +-12 standard deviations"""
+    from scipy import stats
+    from pydsol.core import distributions as D
+    Lattice = make_stream()
+    cases = [
+        ("Poisson(50)", D.DistPoisson(Lattice(), 50.0), stats.poisson(50)),
+        ("Poisson(800)", D.DistPoisson(Lattice(), 800.0),
+         stats.poisson(800)),
+        ("Binomial(2000,0.5)", D.DistBinomial(Lattice(), 2000, 0.5),
+         stats.binom(2000, 0.5)),
+        ("Binomial(100,0.01)", D.DistBinomial(Lattice(), 100, 0.01),
+         stats.binom(100, 0.01)),
+        ("NegBinomial(500,0.5)", D.DistNegBinomial(Lattice(), 500, 0.5),
+         stats.nbinom(500, 0.5)),
+        ("Geometric(1e-6)", D.DistGeometric(Lattice(), 1e-6),
+         stats.geom(1e-6, loc=-1)),
+        ("DiscreteUniform(-2^40,2^40)",
+         D.DistDiscreteUniform(Lattice(), -2 ** 40, 2 ** 40),
+         stats.randint(-2 ** 40, 2 ** 40 + 1)),
+    ]
+    n = 0
+    bad = []
+    for name, d, ref in cases:
+        m, sd = float(ref.mean()), float(ref.std())
+        lo = max(int(m - 12 * sd) - 1, int(ref.support()[0]) - 2)
+        hi = int(m + 12 * sd) + 2
+        step = max(1, (hi - lo) // 4000)
+        tot = 0.0
+        raised = 0
+        window = list(range(lo, hi, step))
+        extra = [x for x in (0, 1, int(m), int(m) * 4 + 7)
+                 if x not in set(window)]
+        for x in window + extra:
+            n += 1
+            try:
+                p = d.probability(x)
+            except Exception as ex:  # noqa
+                raised += 1
+                if raised == 1:
+                    bad.append(("probability-raises", name, x,
+                                type(ex).__name__))
+                continue
+            rp = float(ref.pmf(x))
+            if not p >= 0:
+                bad.append(("probability-negative", name, x, p))
+            elif abs(p - rp) > 1e-9 * rp + 1e-300:
+                bad.append(("probability-differs-from-closed-form", name, x,
+                            p, rp))
+            if lo <= x < hi and x not in extra:
+                tot += p * step
+        if step == 1 and not raised and abs(tot - 1.0) > 1e-6 and \
+                name != "Geometric(1e-6)":
+            bad.append(("probabilities-do-not-sum-to-one", name, tot))
+    return n, bad[:40]
+
+
 def poisson_check():
     """Poisson consumes x+1 uniforms for the value x: P(X=j) is the fraction
     of the (j+1)-dimensional lattice that consumes exactly j+1 uniforms"""
@@ -595,6 +654,12 @@ def run(ctx):
         ctx.violation("C15:%s:%s" % (b[0], b[1]), "poisson: %s" % (b,),
                       {"part": "poisson"})
     ctx.part("Poisson by consumption-dimension lattices", evaluations=n)
+    n, bad = large_parameter_pmf()
+    ev += n
+    for b in bad:
+        ctx.violation("C15:%s:%s" % (b[0], b[1]), "large parameters: %s" % (b,),
+                      {"part": "largepmf"})
+    ctx.part("pmf at large parameters", evaluations=n)
     n, bad = cdf_checks()
     ev += n
     for b in bad:
@@ -636,6 +701,8 @@ def replay(data):
         return sampler_worker(data["case"])["bad"][:3] or None
     if part == "discrete":
         return discrete_worker(data["case"])["bad"][:3] or None
+    if part == "largepmf":
+        return large_parameter_pmf()[1][:3] or None
     if part == "poisson":
         return poisson_check()[1][:3] or None
     return cdf_checks()[1][:3] or None
